@@ -87,3 +87,64 @@ Proof.
   - intros b h r. cbn. apply c_dec_hdr_rest.
   - intros b m r. cbn. apply c_dec_mem_rest.
 Qed.
+
+(* ---- the executable codec round-trips on every value a Rust VId / Member / Header can hold ---- *)
+From Coq Require Import ZArith.
+Ltac Zify.zify_post_hook ::= Z.div_mod_to_equations.
+
+Definition wf_cid (i : cid) : Prop := ca i < 65536 /\ cg i < 65536 /\ ck i < 4 /\ cpad i < 256.
+
+Lemma all_238_repeat n r : all_238 (firstn n (repeat 238 n ++ r)) = true.
+Proof. induction n as [|n IH]; cbn; auto. Qed.
+
+Lemma firstn_repeat_app {A} (x : A) n r : firstn n (repeat x n ++ r) = repeat x n.
+Proof. induction n as [|n IH]; cbn; auto. rewrite IH. reflexivity. Qed.
+
+Lemma skipn_repeat_app {A} (x : A) n r : skipn n (repeat x n ++ r) = r.
+Proof. induction n as [|n IH]; cbn; auto. Qed.
+
+Lemma dec_enc_id (i : cid) (r : bytes) : wf_cid i -> dec_id (enc_id i ++ r) = Some (i, r).
+Proof.
+  intros (A & G & K & P). unfold enc_id, u16_be. cbn [app]. unfold dec_id.
+  replace (ck i <? 4) with true by lia.
+  rewrite all_238_repeat, skipn_repeat_app.
+  replace (cpad i <=? len (repeat 238 (N.to_nat (cpad i)) ++ r)) with true.
+  2:{ unfold len. rewrite app_length, repeat_length. lia. }
+  cbn [andb]. destruct i as [a g k p]; cbn in *. f_equal. f_equal. f_equal; lia.
+Qed.
+
+Definition wf_cmember (m : member cid) : Prop := wf_cid (m_id m) /\ m_inc m < 65536.
+
+Lemma c_dec_enc_mem (m : member cid) (r : bytes) :
+  wf_cmember m -> c_dec_mem (c_enc_mem m ++ r) = Some (m, r).
+Proof.
+  intros [Wi Wn]. unfold c_enc_mem, c_dec_mem. rewrite <- !app_assoc. rewrite dec_enc_id by exact Wi.
+  unfold u16_be. cbn [app]. destruct m as [i n s]; cbn in *.
+  destruct s; cbn; f_equal; f_equal; f_equal; lia.
+Qed.
+
+Definition wf_cmsg (m : message cid) : Prop :=
+  match m with
+  | Ping n | Ack n => n < 256
+  | PingReq i n | IndirectPing i n | IndirectAck i n | ForwardedAck i n => wf_cid i /\ n < 256
+  | _ => True
+  end.
+
+Lemma dec_enc_msg (m : message cid) (r : bytes) : wf_cmsg m -> dec_msg (enc_msg m ++ r) = Some (m, r).
+Proof.
+  destruct m; cbn [wf_cmsg enc_msg]; intros W; try reflexivity.
+  all: destruct W as [Wi Wn]; cbn [app]; unfold dec_msg; cbn [N.leb N.compare andb];
+    rewrite <- app_assoc; rewrite dec_enc_id by exact Wi; reflexivity.
+Qed.
+
+Definition wf_chdr (h : header cid) : Prop :=
+  wf_cid (h_src h) /\ h_src_inc h < 65536 /\ wf_cid (h_dst h) /\ wf_cmsg (h_msg h).
+
+Lemma c_dec_enc_hdr (h : header cid) (r : bytes) :
+  wf_chdr h -> c_dec_hdr (c_enc_hdr h ++ r) = Some (h, r).
+Proof.
+  intros (Ws & Wn & Wd & Wm). unfold c_enc_hdr, c_dec_hdr. rewrite <- !app_assoc.
+  rewrite dec_enc_id by exact Ws. unfold u16_be. cbn [app].
+  rewrite dec_enc_id by exact Wd. rewrite dec_enc_msg by exact Wm.
+  destruct h as [s n d m]; cbn in *. f_equal. f_equal. f_equal. lia.
+Qed.
